@@ -36,6 +36,9 @@ CROSS = {
     "C01-B7": ["C13"], "C02-B7": ["C03"], "C03-A7": ["C02"], "C04-A7": ["C10"], "C04-B7": ["C10"], "C07-A7": ["C01"], "C07-B7": ["C13"],
     "C08-A7": ["C01"], "C08-B7": ["C01"], "C10-A7": ["C05"], "C10-B7": ["C11"], "C11-B7": ["C07"], "C13-A7": ["C01"], "C13-B7": ["C16"],
     "C14-A7": ["C16", "C01"], "C14-B7": ["C12"], "C15-A7": ["C02"], "C16-A7": ["C08", "C01"], "C16-B7": ["C13"], "C12-A7": ["C11"], "C12-B7": ["C10"],
+    # wave 8 (own check first, then the pairs run with --pairs)
+    # wave 9
+    "C02-A9": ["C14"], "C03-A9": ["C15"], "C04-A9": ["C10"], "C04-B9": ["C11"], "C07-A9": ["C13"], "C13-A9": ["C05"], "C13-B9": ["C05"], "C14-B9": ["C11"],
     "C10-S1": [],
     "C09-B6": ["C10"], "C09-A6": ["C10"], "C10-A6": ["C12"], "C12-B6": ["C11"], "C14-A6": ["C05"], "C08-A6": ["C16"], "C16-B6": ["C01"],
 }
